@@ -195,12 +195,13 @@ CHECKS = {
         level_text=("2-5 connections (publishers, stalled subscribers, both; wills; clean/persistent; keep-alive 1 s) fill each other's rings until the broker is quiescent, then end in a generated order by "
                     "DISCONNECT, abrupt close, protocol error, keep-alive expiry or Server.Close. For every connection that no still-open stalled peer can hold up, the teardown-done event must arrive "
                     "(hang vs slow is decided by a goroutine census at quiescence); once all have ended every teardown has finished, wills were published exactly for the abnormal ends, clean sessions are "
-                    "gone and persistent ones kept, Server.Close returns and no goroutine with a go-mqtt frame remains. Causes and buffer conditions are enumerated as classes, sequences are sampled."),
+                    "gone and persistent ones kept, Server.Close returns and no goroutine with a go-mqtt frame remains. Unit close-window forces the one interleaving a free run practically never hits: a processor is parked (yield hook) between its closed-check and its condition wait on a ring while that ring's connection ends; afterwards every teardown must still finish. Causes and buffer conditions are enumerated as classes, sequences are sampled."),
         level_note=("Trusted: the dependency model (a connection may wait only for a still-open stalled connection subscribed to what it published), the census (runtime.Stack states), the teardown-done hook. "
                     "One case at a time per process so the census is attributable."),
         rule=("rapid-generated sequences; non-trivial = at least one connection was ended while a ring involved was full (stalled subscriber with pending deliveries or blocked publisher); distinct = FNV-64 of the sequence JSON"),
         assumptions=["a blocked delivery to a still-open stalled peer may hold a teardown up (the statement's proviso)", "wills are judged only while the server is up"],
-        units=[dict(name="faults", test="TestC16", checks=(120, 5000), shards=(4, 14), timeout=(300, 3000))]),
+        units=[dict(name="faults", test="TestC16", checks=(120, 5000), shards=(4, 14), timeout=(300, 3000)),
+               dict(name="close-window", test="TestC16Window", checks=(24, 400), shards=(4, 8), timeout=(300, 3000))]),
     "C17": dict(
         pkg="p_broker", level="exploration",
         technique="concurrent stress with rapid-generated publisher/subscriber configurations; every received byte strictly parsed; self-describing payloads with per-publisher sequence numbers",
